@@ -179,13 +179,13 @@ def move_agent(
         action,
     )
 
-    try:
-        obj = state.grid[next_position]
-    except IndexError:
-        pass
-    else:
-        if not obj.blocks_movement:
-            state.agent.position = next_position
+    # NOTE: explicit bounds check;  negative indices would otherwise wrap around
+    if not state.grid.area.contains(next_position):
+        return
+
+    obj = state.grid[next_position]
+    if not obj.blocks_movement:
+        state.agent.position = next_position
 
 
 @transition_function_registry.register
